@@ -33,6 +33,7 @@ type omap struct {
 	hidx    map[int][]int // hashable keys: hash -> entry indices
 	ents    []oent
 	live    int
+	nsym    int // live entries whose key is a rope (symbolic string)
 }
 
 // makeMap returns an empty initialized map of key type kt.
@@ -125,7 +126,9 @@ func (m *omap) compact() {
 	if m.builtin {
 		m.idx = make(map[value]int, len(ne))
 		for i, e := range ne {
-			m.idx[e.key] = i
+			if _, ok := e.key.(*rope); !ok {
+				m.idx[e.key] = i
+			}
 		}
 	} else {
 		m.hidx = make(map[int][]int, len(ne))
@@ -173,4 +176,89 @@ func newOmapIter(m *omap) *omapIter {
 		}
 	}
 	return it
+}
+
+// Symbolic string keys.  A rope used as a map key is compared with every
+// present key as an SMT term (one fork per candidate); if it equals none the
+// entry is stored under the rope itself.  Lookups with a concrete key must
+// then also be compared with the stored symbolic keys.
+
+// findSym returns the index of the entry whose key equals k, forking on
+// symbolic equalities.
+func (m *omap) findSym(fr *frame, k value) int {
+	if m == nil {
+		return -1
+	}
+	_, ksym := k.(*rope)
+	if !ksym {
+		if i := m.find(k); i >= 0 {
+			return i
+		}
+		if m.nsym == 0 {
+			return -1
+		}
+	}
+	for i := range m.ents {
+		e := &m.ents[i]
+		if !e.live {
+			continue
+		}
+		_, esym := e.key.(*rope)
+		if !ksym && !esym {
+			continue // concrete vs concrete: already decided by find
+		}
+		if ksym && esym && e.key.(*rope) == k.(*rope) {
+			return i
+		}
+		eq := ropeEq(fr, k, e.key)
+		switch b := eq.(type) {
+		case bool:
+			if b {
+				return i
+			}
+		case symBool:
+			fr.noteSymBranch()
+			if fr.i.px.forkBool(b.t) {
+				return i
+			}
+		}
+	}
+	return -1
+}
+
+func (m *omap) lookupSym(fr *frame, k value) (value, bool) {
+	i := m.findSym(fr, k)
+	if i < 0 {
+		return nil, false
+	}
+	return m.ents[i].val, true
+}
+
+func (m *omap) insertSym(fr *frame, k, v value) {
+	if i := m.findSym(fr, k); i >= 0 {
+		m.ents[i].val = v
+		return
+	}
+	if _, ok := k.(*rope); ok {
+		m.ents = append(m.ents, oent{k, v, true})
+		m.live++
+		m.nsym++
+		return
+	}
+	m.insert(k, v)
+}
+
+func (m *omap) deleteSym(fr *frame, k value) {
+	i := m.findSym(fr, k)
+	if i < 0 {
+		return
+	}
+	if _, ok := m.ents[i].key.(*rope); ok {
+		m.ents[i].live = false
+		m.ents[i].val = nil
+		m.live--
+		m.nsym--
+		return
+	}
+	m.delete(m.ents[i].key)
 }
